@@ -94,6 +94,11 @@ def _special(ctx, pending):
                 ctx.count("long_thin_grid")
     for (r, c) in [(1, 130), (130, 1)]:
         _one(ctx, dict(gen="wilson", rows=r, cols=c, kwargs={}), None, pending); ctx.count("long_thin_grid")
+    # the grid shape handed over as a small-integer array (the library's own Coord type is int8): more than 127 / 255 cells
+    for (r, c), dt in [((12, 12), "int8"), ((17, 17), "int8"), ((16, 16), "uint8"), ((9, 15), "int8"), ((100, 3), "int8"), ((20, 20), "int16")]:
+        for gen in ("dfs", "prim", "wilson", "percolation", "dfs_percolation") if (r * c <= 300 and not ctx.quick) else ("dfs", "dfs_percolation", "percolation", "prim"):
+            kw = {"p": 0.3} if gen in ("percolation", "dfs_percolation") else {}
+            _one(ctx, dict(gen=gen, rows=r, cols=c, kwargs=kw, shape_dtype=dt), None, pending); ctx.count("small_int_shape")
     # start_coord that is not a cell of the grid (the input of the repaired defect `gen_dfs((3,3), start_coord=(3,0))` and its
     # relatives), every generator that takes one, on every run whatever the seed; and the border cells next to them (accepted)
     for (r, c) in [(3, 3), (2, 5), (1, 1)] + ([] if ctx.quick else [(4, 2), (7, 7), (1, 6)]):
